@@ -932,6 +932,35 @@ fn exec_header(t: &Trace) -> HResult<Option<Violation>> {
     if let Some(v) = cmp_header("", &m, &got) {
         return Ok(Some(v));
     }
+    // documented on the extra-parameter field and the adder calls: if a label was added twice,
+    // CBOR-encoding fails
+    {
+        let labels: Vec<&MLabel> = m.rest.iter().map(|(l, _)| l).collect();
+        let mut dup = false;
+        for i in 0..labels.len() {
+            for j in (i + 1)..labels.len() {
+                if labels[i] == labels[j] {
+                    dup = true;
+                }
+            }
+        }
+        let enc = guarded(|| built.clone().to_vec());
+        match (dup, enc) {
+            (true, Ok(Ok(bytes))) => {
+                return Ok(Some(Violation::new(
+                    "C19.duplicate-encodes",
+                    format!("the header holds the same extra label twice, which is documented to make CBOR-encoding fail, but it encodes as {}", crate::util::hex_short(&bytes)),
+                )))
+            }
+            (false, Ok(Err(e))) => {
+                return Ok(Some(Violation::new(
+                    "C19.duplicate-encodes",
+                    format!("the header holds no repeated extra label but does not encode: {:?}", e),
+                )))
+            }
+            _ => {}
+        }
+    }
     Ok(enc_obs(built, m.to_coset()))
 }
 
@@ -1773,6 +1802,35 @@ fn exec_key(t: &Trace) -> HResult<Option<Violation>> {
     cmp_field!("key_ops", m.key_ops, got.key_ops);
     cmp_field!("base_iv", m.base_iv, got.base_iv);
     cmp_field!("params", m.params, got.params);
+    // documented on the extra-parameter field and the adder calls: if a label was added twice,
+    // CBOR-encoding fails
+    {
+        let labels: Vec<&MLabel> = m.params.iter().map(|(l, _)| l).collect();
+        let mut dup = false;
+        for i in 0..labels.len() {
+            for j in (i + 1)..labels.len() {
+                if labels[i] == labels[j] {
+                    dup = true;
+                }
+            }
+        }
+        let enc = guarded(|| built.clone().to_vec());
+        match (dup, enc) {
+            (true, Ok(Ok(bytes))) => {
+                return Ok(Some(Violation::new(
+                    "C19.duplicate-encodes",
+                    format!("the key holds the same extra label twice, which is documented to make CBOR-encoding fail, but it encodes as {}", crate::util::hex_short(&bytes)),
+                )))
+            }
+            (false, Ok(Err(e))) => {
+                return Ok(Some(Violation::new(
+                    "C19.duplicate-encodes",
+                    format!("the key holds no repeated extra label but does not encode: {:?}", e),
+                )))
+            }
+            _ => {}
+        }
+    }
     Ok(enc_obs(built, m.to_coset()))
 }
 
@@ -2181,6 +2239,9 @@ impl Engine for C19 {
         let mut t = Trace::new("C19", seed, run);
         let builder = BUILDERS[rng.below(BUILDERS.len())];
         t.set_meta("builder", builder);
+        if rng.chance(1, 4) {
+            t.set_meta("headers", "decoded");
+        }
         t.push(gen_ctor(builder, &mut rng));
         // 1 history in 50 is long (17-64 calls) and half of those repeat one method many times
         if rng.chance(1, 50) {
@@ -2216,6 +2277,7 @@ impl Engine for C19 {
     }
     fn exec(&self, t: &Trace, st: &mut RunStats) -> HResult<Option<Violation>> {
         let builder = t.meta_req("builder")?.to_string();
+        crate::model::set_headers_via_decode(if t.meta("headers") == Some("decoded") { 2 } else { 0 });
         let nops = t.steps.iter().filter(|s| s.kind == "op").count();
         st.inc(&format!("histories:{}", builder));
         st.add("builder_calls", nops as u64);
